@@ -20,6 +20,7 @@ Inductive op :=
 | OpAddGaps (lenprop prop : Q)
 | OpMutate (rate : Q)
 | OpRogue (prop proplen : Q)
+| OpRarefy (nb : Z) (counts : list (bs * Z))   (* not modelled: judged by the spec oracle only *)
 (* reachability over many seeds: the outcomes observed for 96 seeds are listed in c_names1;
    what = 0 RandSubAlign(len, consecutive) on rows with pairwise distinct columns, 1 ShuffleSequences on three rows,
    2 Sample(1) *)
@@ -66,6 +67,7 @@ Definition model_ok (c : case) : bool :=
       | Some ((rg, it, o), _) => negb (c_err c) && rows_eqb out o && names_eqb (c_names1 c) rg && names_eqb (c_names2 c) it
       | None => false
       end
+  | OpRarefy _ _ => true
   | OpSupport _ _ => true
   end.
 
@@ -126,6 +128,13 @@ Definition spec_check (c : case) : option bool :=
               (* every output column is an input column, taken for all rows at once *)
               forallb (fun col => Nat.ltb 0 (cnt_col col (cols_of rs))) (cols_of out))
       else None
+  | OpRarefy nb counts =>
+      (* the rows drawn are distinct original rows, at most nb of them; nb at or above the sum of the counts is an
+         error; the same seed draws the same rows *)
+      let total := fold_right Z.add 0%Z (map snd counts) in
+      Some (if (total <=? nb)%Z then c_err c
+            else negb (c_err c) && c_replay c && (Z.of_nat (length out) <=? Z.max 0 nb)%Z && nodup_names (names out) &&
+                 forallb (fun o => Nat.eqb (cnt_row o rs) 1) out)
   | OpSample nb =>
       Some (if (nb <? 1)%Z || (Z.of_nat (length rs) <? nb)%Z then c_err c
             else negb (c_err c) && c_replay c && Z.eqb (Z.of_nat (length out)) nb && nodup_names (names out) &&
